@@ -1,7 +1,7 @@
 (* Model of glob expansion: spok's expandGlob callback on top of doublestar's GlobWalk
    (doGlobWalk / globDirWalk / globDoubleStarWalk of bmatcuk/doublestar v4.7.1), for patterns whose
-   segments are names with literal bytes and '*', or the segment "**".  Classes, '?', alternation and
-   escapes are outside this fragment.  The callback protocol (nil / SkipDir, with doublestar's "SkipDir on a
+   segments are names with literal bytes, '*', '?' and character classes, or the segment "**"; alternation {a,b} is
+   expanded first (expand_alts, at the end).  Backslash escapes are outside the fragment.  The callback protocol (nil / SkipDir, with doublestar's "SkipDir on a
    listing entry abandons the rest of the listing") is kept, so the unrepaired callback can be expressed too. *)
 From Spok Require Import Base.
 Open Scope N_scope.
@@ -28,16 +28,93 @@ Fixpoint lookup (t : gnode) (p : gpath) : option gnode :=
               end
   end.
 
-(* matching one name against one pattern segment: '*' (42) matches any run of bytes *)
-Fixpoint segmatch (p : bytes) (s : bytes) : bool :=
-  match p with
-  | [] => is_nil_b s
-  | c :: p' =>
-    if c =? 42 then
-      (fix star (s : bytes) : bool := segmatch p' s || match s with [] => false | _ :: s' => star s' end) s
-    else match s with [] => false | x :: s' => (c =? x) && segmatch p' s' end
+(* ---- matching one name against one pattern segment (doublestar's doMatchWithSeparator restricted to a pattern without '/') ----
+   '*' any run of runes, '?' one rune, '[...]' one rune of a class ('!' or '^' negates; x-y ranges), anything else itself.
+   The pattern is tokenised first (None: not a pattern of the fragment - a class that does not end, an empty class, a
+   backslash escape, or a '{' that alternation expansion did not remove). *)
+Inductive citem := CSingle (r : N) | CRange (lo hi : N).
+Inductive ptok := PStar | PAny | PClass (neg : bool) (items : list citem) | PLit (b : N).
+
+(* the items of a class up to the closing ']', as the loop of the matcher reads them: a rune, or "-hi" directly after a
+   rune read as a single (the single stays: "a-z" is the single a and the range a..z) *)
+Fixpoint class_items (fuel : nat) (p : bytes) (last : option N) : option (list citem * bytes) :=
+  match fuel with
+  | O => None
+  | S f =>
+    match p with
+    | [] => None                                       (* the class never ends *)
+    | 93 :: rest => Some ([], rest)
+    | 92 :: _ => None                                  (* escapes are outside the fragment *)
+    | _ =>
+      let '(r, w) := decode p in
+      let p' := skipn w p in
+      match last, p' with
+      | Some l, c :: _ =>
+        if (r =? 45) && negb (c =? 93) then
+          if c =? 92 then None else
+          let '(r2, w2) := decode p' in
+          match class_items f (skipn w2 p') None with
+          | Some (its, rest) => Some (CRange l r2 :: its, rest)
+          | None => None
+          end
+        else match class_items f p' (Some r) with Some (its, rest) => Some (CSingle r :: its, rest) | None => None end
+      | _, _ => match class_items f p' (Some r) with Some (its, rest) => Some (CSingle r :: its, rest) | None => None end
+      end
+    end
   end.
-Definition has_meta (p : bytes) : bool := existsb (fun c => c =? 42) p.
+
+Fixpoint ptoks_f (fuel : nat) (p : bytes) : option (list ptok) :=
+  match fuel with
+  | O => None
+  | S f =>
+    match p with
+    | [] => Some []
+    | b :: rest =>
+      if b =? 42 then match ptoks_f f rest with Some ts => Some (PStar :: ts) | None => None end
+      else if b =? 63 then match ptoks_f f rest with Some ts => Some (PAny :: ts) | None => None end
+      else if (b =? 92) || (b =? 123) then None
+      else if b =? 91 then
+        let '(neg, body) := match rest with 33 :: b => (true, b) | 94 :: b => (true, b) | _ => (false, rest) end in
+        match body with
+        | [] => None
+        | 93 :: _ => None                                (* empty class *)
+        | _ => match class_items (S (length body)) body None with
+               | Some (its, after) => match ptoks_f f after with Some ts => Some (PClass neg its :: ts) | None => None end
+               | None => None
+               end
+        end
+      else match ptoks_f f rest with Some ts => Some (PLit b :: ts) | None => None end
+    end
+  end.
+Definition ptoks (p : bytes) : option (list ptok) := ptoks_f (S (length p)) p.
+
+Definition citem_has (r : N) (i : citem) : bool :=
+  match i with CSingle x => x =? r | CRange lo hi => (lo <=? r) && (r <=? hi) end.
+
+(* literal bytes are compared byte by byte (the matcher compares decoded runes: the same thing on valid UTF-8) *)
+Fixpoint tokmatch (ts : list ptok) : bytes -> bool :=
+  match ts with
+  | [] => fun s => is_nil_b s
+  | PStar :: ts' => fun s =>
+    (fix star (fuel : nat) (s : bytes) : bool :=
+       tokmatch ts' s ||
+       match fuel, s with
+       | S f, _ :: _ => star f (skipn (snd (decode s)) s)   (* the star gives way one rune at a time *)
+       | _, _ => false
+       end) (length s) s
+  | PAny :: ts' => fun s => match s with [] => false | _ => tokmatch ts' (skipn (snd (decode s)) s) end
+  | PClass neg its :: ts' => fun s =>
+    match s with
+    | [] => false
+    | _ => let '(r, w) := decode s in negb (Bool.eqb (existsb (citem_has r) its) neg) && tokmatch ts' (skipn w s)
+    end
+  | PLit b :: ts' => fun s => match s with [] => false | x :: s' => (b =? x) && tokmatch ts' s' end
+  end.
+
+Definition segmatch (p : bytes) (s : bytes) : bool :=
+  match ptoks p with Some ts => tokmatch ts s | None => false end.
+Definition is_meta (c : N) : bool := (c =? 42) || (c =? 63) || (c =? 91) || (c =? 92) || (c =? 123).
+Definition has_meta (p : bytes) : bool := existsb is_meta p.
 
 (* ---- the callback protocol ---- *)
 Definition cbk := gpath -> bool -> list gpath * bool.           (* fn(path, isDir) = (what it collected, returned SkipDir?) *)
@@ -165,3 +242,57 @@ Fixpoint all_paths (t : gnode) : list gpath :=
 
 Definition glob_spec (root : gnode) (pat : list seg) : list gpath :=
   filter (fun p => tmatch pat root p && negb (hidden p)) (all_paths root).
+
+(* ---- whole patterns as written in a spokfile: alternation, then segments ---- *)
+Fixpoint split_slash (cur : bytes) (p : bytes) : list bytes :=
+  match p with
+  | [] => [rev cur]
+  | c :: r => if c =? 47 then rev cur :: split_slash [] r else split_slash (c :: cur) r
+  end.
+Definition seg_of (s : bytes) : seg := if bytes_eqb s [42; 42] then SDouble else SPat s.
+Definition parse_pattern (p : bytes) : list seg := map seg_of (split_slash [] p).
+
+(* {a,b}: the first '{', its matching '}' (nested braces counted), the alternatives between top-level commas; the pattern
+   denotes what any of  before ++ alternative ++ after  denotes (doMatchWithSeparator's case '{'; GlobWalk's globAltsWalk walks
+   each alternative's pattern and merges the results) *)
+Fixpoint find_open (p pre : bytes) : option (bytes * bytes) :=
+  match p with
+  | [] => None
+  | c :: r => if c =? 123 then Some (rev pre, r) else find_open r (c :: pre)
+  end.
+Fixpoint closing (depth : nat) (p acc : bytes) : option (bytes * bytes) :=
+  match p with
+  | [] => None
+  | c :: r =>
+    if c =? 123 then closing (S depth) r (c :: acc)
+    else if c =? 125 then match depth with O => Some (rev acc, r) | S d => closing d r (c :: acc) end
+    else closing depth r (c :: acc)
+  end.
+Fixpoint split_alts (depth : nat) (p cur : bytes) : list bytes :=
+  match p with
+  | [] => [rev cur]
+  | c :: r =>
+    if (c =? 44) && Nat.eqb depth 0 then rev cur :: split_alts 0 r []
+    else if c =? 123 then split_alts (S depth) r (c :: cur)
+    else if c =? 125 then split_alts (Nat.pred depth) r (c :: cur)
+    else split_alts depth r (c :: cur)
+  end.
+Fixpoint expand_alts (fuel : nat) (p : bytes) : list bytes :=
+  match fuel with
+  | O => []
+  | S f =>
+    match find_open p [] with
+    | None => [p]
+    | Some (pre, rest) =>
+      match closing 0 rest [] with
+      | None => []                                         (* a '{' that is never closed: not a pattern *)
+      | Some (inside, after) => flat_map (fun alt => expand_alts f (pre ++ alt ++ after)) (split_alts 0 inside [])
+      end
+    end
+  end.
+
+(* what spok records for a glob pattern: the union over the alternatives *)
+Definition expand_pat (root : gnode) (p : bytes) : list gpath :=
+  flat_map (fun q => expand root (parse_pattern q)) (expand_alts (S (length p)) p).
+Definition glob_spec_pat (root : gnode) (p : bytes) : list gpath :=
+  flat_map (fun q => glob_spec root (parse_pattern q)) (expand_alts (S (length p)) p).
